@@ -55,6 +55,10 @@ func init() {
 		zz + "Symbolic": func(fr *frame, a []value) value { return true },
 		zz + "Quiesce":  func(fr *frame, a []value) value { return fr.i.sched.quiesce() },
 		zz + "Param":    zzParam,
+		zz + "Gate": func(fr *frame, a []value) value {
+			fr.i.ps.events = append(fr.i.ps.events, "gate "+fr.cstr(a[0]))
+			return nil
+		},
 		zz + "Frozen":   zzFrozen,
 		zz + "Concrete": zzConcrete,
 		zz + "Yield":    func(fr *frame, a []value) value { fr.i.sched.block(func() bool { return true }, "zzsym.Yield"); return nil },
